@@ -924,7 +924,7 @@ func ruleC20Support(e *Env) {
 	// ---- helperAssertEmpty / helperAssertEqual
 	for _, h := range []struct {
 		name, assert, method string
-		nvals               int
+		nvals                int
 	}{{"helperAssertEmpty", "github.com/stretchr/testify/assert.Empty", "AssertEmpty", 1}, {"helperAssertEqual", "github.com/stretchr/testify/assert.Equal", "AssertEqual", 2}} {
 		fn := e.Fn(rule, "test", h.name)
 		if fn == nil || len(fn.Params) != 3+h.nvals {
